@@ -4,7 +4,7 @@ W=$1
 cd $W || exit 2
 test -s patch.diff || git diff > patch.diff
 echo "== demo with change"; PYTHONPATH=$W/src /venv/bin/python demo.py >/tmp/w/demo_$$.log 2>&1; echo "exit=$?"; tail -3 /tmp/w/demo_$$.log
-git stash -q
+git apply -R patch.diff
 echo "== demo without change"; PYTHONPATH=$W/src /venv/bin/python demo.py >/tmp/w/demo_$$.log 2>&1; echo "exit=$?"; tail -2 /tmp/w/demo_$$.log
-git stash pop -q
+git apply patch.diff
 echo "== suite with change"; PYTHONPATH=$W/src /venv/bin/python -m pytest -q -p no:cacheprovider -n 8 --timeout=900 2>&1 | tail -1
